@@ -2,6 +2,7 @@ import KyupyVerif.Proofs.Sdf
 import KyupyVerif.Proofs.SdfText
 import KyupyVerif.Proofs.SdfTextRaw
 import KyupyVerif.Proofs.SdfCirc
+import KyupyVerif.Proofs.SdfCircComplete
 /-! # C14 — every SDF delay lands on the right line, polarity and data set — none is lost
 
 Object of the theorems: the hand-written model `KV.Sdf` (Model/Sdf.lean) of `kyupy/sdf.py` *after* lark:
@@ -29,10 +30,29 @@ two warn exits, fork asserts, branch fork / sole reader / warn).
   predicate of C10) the IOPATH look-up answers `l` iff `l` is THE line whose reader is pin `pin_index(kind, pin)` of the cell of
   that name; `cell_lookup_spec`, `pin_lookup_skip`; `interconnect_lookup_spec` — the answered line enters pin 0 of the fork that
   drives the destination pin, that fork has one reader, and it is the signal fork itself (sole line) or a branch fork fed by the
-  signal fork of the origin pin; `iopath_lands_circuit`, `interconnect_lands_circuit` — the landing theorems with these
-  look-ups in place of the tables (the auditor's witness "a table that sends every pin to line 0" is no instance any more).
-  Not proved: completeness of `icLook` (that it finds a line whenever the declarative description is satisfiable) and
-  that `verilog.parse` builds the fork structure the description speaks of (C11's subject).
+  signal fork of the origin pin; `iopath_lands_lookup`, `interconnect_lands_lookup` — the landing theorems with the TABLES of
+  these look-ups in place of free tables (the auditor's witness "a table that sends every pin to line 0" is no instance any more).
+  REAL RESULT (second audit, item C14): the tables `pinLineOf` / `icLineOf` read `raise` and `skip` both as "no line", so the
+  table-level arrays exist where the real call raises.  `iopath_lands_circuit`, `interconnect_lands_circuit` are therefore stated
+  about `iopathsC` / `interconnectsC` (the functions the driver `sdfc` ties; `none` = the real call raises, no array at all):
+  `iopathsC … = some A → A d l ip op = …`; `iopaths_raises_iff`, `interconnects_raises_iff` say exactly when there is no array;
+  `pin_lookup_raise` (third outcome of `pinLook`, next to `pin_lookup_spec` / `pin_lookup_skip`), `interconnect_lookup_raise`,
+  `interconnect_lookup_skip` (the outcomes of `icLook` in terms of the exits below).
+  COMPLETENESS (Proofs/SdfCircComplete.lean): `interconnect_lookup_complete` — on a well-formed dump, whenever the place that
+  description names exists, `icLook` answers it; `interconnect_lookup_iff` (`icLook … = .line l ↔ IcPlace … l`: exactly the
+  entries that have a place land, none is lost silently), `interconnect_place_unique`, `interconnect_place_no_warn`.
+  EVERY EXIT: `icLookX` = `icLook` with the two kinds of warning kept apart (`interconnect_exit_refines`, every dump);
+  `interconnect_lookup_exits` — under `NNet.wf` and the decidable structural hypothesis `icStructOKB` (every fork has exactly one,
+  connected, input pin; lines at pins of cells come from / go to forks) four iff's: answer `l` ⇔ one-reader fork `f2` at the
+  destination and (a) it is the signal fork of the origin pin and `l` is the line leaving that pin, or (b) it is another fork
+  whose input line `l` is driven by that signal fork; warn "No branchfork" ⇔ one fork between the pins, with fan-out; warn
+  "No line to annotate pin" ⇔ an open pin; raise ⇔ a name does not resolve or the two forks differ and `f2` is not a one-reader
+  branch of `f1`.  `interconnect_lookup_exits_any`: the same for every dump, in terms of the fork decision `icFork`.
+  Array level: `interconnect_not_lost_circuit`, `interconnect_not_lost_circuitC` — an entry that is not all-zero and has a place
+  stands in the result of `interconnects` (`interconnectsC`) on that line.
+  Not proved: that `verilog.parse` builds dumps satisfying `NNet.wf` and `icStructOKB` (C11's subject) — both are evaluated by the
+  check on the dump of EVERY parsed circuit (driver `sdfc … icx`, tags `c14-hyp:wf:*`, `c14-hyp:icStruct:*`; a generated
+  well-formed netlist outside is a broken tie).
 * **Lemmas, not property theorems** (Proofs/Sdf.lean, `rfl` restatements of definitions, formerly listed here):
   `triple_empty_fields`, `triple_unit`, `norm_full`, `sanitize_single`, `sanitize_pair`.
 * **Theorem, text level** (section `text`, model `KV.SdfText` in Model/SdfText.lean = the grammar of `sdf.py` read as lark reads
@@ -49,9 +69,13 @@ two warn exits, fork asserts, branch fork / sole reader / warn).
   post-parse model fed with the MODEL's block list equal the real arrays; (b) the post-parse model — in the mode that a probe
   of the real `sdf.parse` selects — against the real `sdf.parse(text).iopaths/.interconnects` on generated circuits and texts,
   twice: with tables exported from the real circuit by structural search (driver `sdf`), and with the concrete look-ups fed
-  with the circuit dump and `tlib.cells` (driver `sdfc`): whole arrays, the raise of `interconnects()` on a file without
+  with the circuit dump and `tlib.cells` (driver `sdfc`, which also answers `NNet.wf` of the dump — the hypothesis of every
+  look-up theorem — checked per case, tag `c14-hyp:sdfc-wf:*`): whole arrays, the raise of `interconnects()` on a file without
   top-level block, and PER ENTRY the line index (or warn / raise) that the real loop picks, observed by running each entry alone
-  through the real `iopaths()` / `interconnects()`.
+  through the real `iopaths()` / `interconnects()`; and the EXIT per INTERCONNECT entry with the kind of warning read from
+  kyupy's log (line / "No line to annotate pin" / "No branchfork" / raise) against `icLookX` (driver `sdfc … icx`, tags
+  `c14-hyp:ic-exit:*`), incl. hand-written fan-out cases with and without branch forks, a connection the circuit does not
+  have, a port as destination.
   What remains trusted at the text level: that lark implements the grammar as the hand-written reader does (LALR tables,
   `re` semantics of the terminals) — checked by (a), not proved; `float`, NumPy assignment and the Verilog reader are
   exercised, not modelled.
@@ -562,9 +586,11 @@ theorem interconnect_lookup_spec (C : NNet) (hwf : C.wf = true) (tl : PinIdx) (c
        ((C.net.line lo).reader ≠ (C.net.line li).driver ∧ (C.net.line l).driver = (C.net.line lo).reader)) :=
   icLook_line_spec C (WF.of_wf hwf) tl c1 p1 c2 p2 l h
 
-/-- `iopath_lands` with the look-up the real code performs: the values of the entry stand on THE line that feeds pin
-`tlib.pin_index(kind, pin)` of the instance (`hcell`, `hpin`, `hreader`: the declarative description of that line). -/
-theorem iopath_lands_circuit (C : NNet) (hwf : C.wf = true) (tl : PinIdx) (df : DelayFile) (pre post : List (String × Entry))
+/-- `iopath_lands` with the TABLE of the look-up the real code performs (`pinLineOf`: `raise` and `skip` both read as "no line"):
+the values of the entry stand on THE line that feeds pin `tlib.pin_index(kind, pin)` of the instance (`hcell`, `hpin`, `hreader`:
+the declarative description of that line).  This array is defined also where the real call raises (second audit, C14): the
+statement about the REAL result is `iopath_lands_circuit` below. -/
+theorem iopath_lands_lookup (C : NNet) (hwf : C.wf = true) (tl : PinIdx) (df : DelayFile) (pre post : List (String × Entry))
     (n : String) (e : Entry) (i idx l d : Nat) (ip op : Bool)
     (hsplit : namedEntries df = pre ++ (n, e) :: post)
     (hcell : cellOf C (stripBackslash n) = some i) (hpin : tl (C.net.node i).kind (pinOf e.a) = some idx)
@@ -576,9 +602,10 @@ theorem iopath_lands_circuit (C : NNet) (hwf : C.wf = true) (tl : PinIdx) (df : 
   have := (pin_lookup_spec C hwf tl (stripBackslash n) (pinOf e.a) l).mpr ⟨i, idx, hcell, hpin, hl, hreader.1, hreader.2⟩
   simp [pinLineOf, this, Look.toOpt]
 
-/-- `interconnect_lands` with the look-up the real code performs (`icLookE`: names split at `/`, backslashes removed, the
-fork decision of `icLook`, described by `interconnect_lookup_spec`). -/
-theorem interconnect_lands_circuit (C : NNet) (tl : PinIdx) (df : DelayFile) (pre post : List Entry) (e : Entry)
+/-- `interconnect_lands` with the TABLE of the look-up the real code performs (`icLineOf` of `icLookE`: names split at `/`,
+backslashes removed, the fork decision of `icLook`, described by `interconnect_lookup_spec`; `raise` and `skip` both read as
+"no line").  The statement about the REAL result (no array when a look-up raises) is `interconnect_lands_circuit` below. -/
+theorem interconnect_lands_lookup (C : NNet) (tl : PinIdx) (df : DelayFile) (pre post : List Entry) (e : Entry)
     (l d : Nat) (ip op : Bool)
     (hsplit : icEntries df = some (pre ++ e :: post))
     (hnz : ∃ v ∈ norm e.r ++ norm e.f, v ≠ 0)
@@ -589,6 +616,219 @@ theorem interconnect_lands_circuit (C : NNet) (tl : PinIdx) (df : DelayFile) (pr
   unfold icLookE at hlook
   simp only at hlook
   simp [icLineOf, hlook, Look.toOpt]
+
+/-! ### the result of the REAL calls: `iopathsC` / `interconnectsC` (`none` = the call raises; second audit, item C14) -/
+
+/-- IOPATH look-up, third outcome: it RAISES exactly when the cell exists and the pin name is not in the library
+(`AssertionError` of `pin_index`) or its index lies beyond `cell.ins` (`IndexError`).  With `pin_lookup_spec` (answer) and
+`pin_lookup_skip` (warn) every exit of `pinLook` is characterised. -/
+theorem pin_lookup_raise (C : NNet) (tl : PinIdx) (name pin : String) :
+    pinLook C tl name pin = .raise ↔
+      ∃ i, cellOf C name = some i ∧
+        (tl (C.net.node i).kind pin = none ∨ ∃ idx, tl (C.net.node i).kind pin = some idx ∧ (C.net.node i).ins.length ≤ idx) :=
+  pinLook_raise_iff C tl name pin
+
+/-- `iopaths(circuit, tlib)` raises (no array at all) exactly when the look-up of SOME entry of the file raises -/
+theorem iopaths_raises_iff (C : NNet) (tl : PinIdx) (df : DelayFile) :
+    iopathsC C tl df = none ↔ ∃ p ∈ namedEntries df, ioLook C tl p.1 p.2 = .raise :=
+  iopathsC_none_iff C tl df
+
+/-- `interconnects(circuit, tlib)` raises exactly when the file has no top-level block, or an entry that is not all-zero
+(`icSkip_false_iff`) has a name with two `/` or a look-up that raises (`interconnect_lookup_exits`: which ones) -/
+theorem interconnects_raises_iff (C : NNet) (tl : PinIdx) (df : DelayFile) :
+    interconnectsC C tl df = none ↔
+      icEntries df = none ∨ ∃ es, icEntries df = some es ∧ ∃ e ∈ es, icSkip (norm e.r) (norm e.f) = false ∧
+        (slashOK e.a = false ∨ slashOK e.b = false ∨ icLookE C tl e = .raise) :=
+  interconnectsC_none_iff C tl df
+
+/-- **IOPATH landing, real result**: WHEN `iopaths(circuit, tlib)` returns an array `A` (`iopathsC … = some A`: no look-up of the
+file raises), the values of the entry stand in `A` on THE line that feeds pin `tlib.pin_index(kind, pin)` of the instance.
+Where the real call raises there is no array and the theorem says nothing (the auditor's witness — a block with a second
+entry for a pin `Q` that does not exist — is no instance any more: `hA` fails there). -/
+theorem iopath_lands_circuit (C : NNet) (hwf : C.wf = true) (tl : PinIdx) (df : DelayFile) (A : Arr)
+    (hA : iopathsC C tl df = some A) (pre post : List (String × Entry))
+    (n : String) (e : Entry) (i idx l d : Nat) (ip op : Bool)
+    (hsplit : namedEntries df = pre ++ (n, e) :: post)
+    (hcell : cellOf C (stripBackslash n) = some i) (hpin : tl (C.net.node i).kind (pinOf e.a) = some idx)
+    (hl : l < C.net.lines.size) (hreader : (C.net.line l).reader = i ∧ (C.net.line l).rpin = idx)
+    (hip : ip ∈ polsOf e.a) (hd : d < 3)
+    (hpost : ∀ p ∈ post, ∀ w, ioWrite (pinLineOf C tl) p.1 p.2 = some w → w.covers l ip = false) :
+    A d l ip op = (norm (if op then e.f else e.r)).getD d 0 := by
+  rw [iopathsC_eq hA]
+  exact iopath_lands_lookup C hwf tl df pre post n e i idx l d ip op hsplit hcell hpin hl hreader hip hd hpost
+
+/-- **INTERCONNECT landing, real result**: WHEN `interconnects(circuit, tlib)` returns an array `A` (`interconnectsC … = some A`:
+top-level block present, no kept entry with two `/`, no look-up of a kept entry raises), the values of an entry that is not
+all-zero and whose look-up answers `l` stand in `A` on line `l`. -/
+theorem interconnect_lands_circuit (C : NNet) (tl : PinIdx) (df : DelayFile) (A : Arr)
+    (hA : interconnectsC C tl df = some A) (pre post : List Entry) (e : Entry)
+    (l d : Nat) (ip op : Bool)
+    (hsplit : icEntries df = some (pre ++ e :: post))
+    (hnz : ∃ v ∈ norm e.r ++ norm e.f, v ≠ 0)
+    (hlook : icLookE C tl e = .line l) (hd : d < 3)
+    (hpost : ∀ e' ∈ post, ∀ w, icWrite (icLineOf C tl) e' = some w → w.line ≠ l) :
+    A d l ip op = (norm (if op then e.f else e.r)).getD d 0 := by
+  have h := interconnect_lands_lookup C tl df pre post e l d ip op hsplit hnz hlook hd hpost
+  rw [interconnectsC_eq hA] at h
+  simpa using h
+
+/-! ### completeness of the INTERCONNECT look-up and every exit (audit finding 7, open item) -/
+
+/-- INTERCONNECT look-up (COMPLETENESS): on a well-formed dump, whenever the place the declarative description of
+`interconnect_lookup_spec` names exists — both ends resolve, `lo` leaves the origin pin and enters fork `f1`, `li` enters the
+destination pin and leaves fork `f2`, `f2` has one reader, `l` enters pin 0 of `f2`, and `f1 = f2` (sole line) or `l` is driven by
+`f1` (branch fork) — the look-up answers `l`: no entry that has a place is warned about, skipped or raised on. -/
+theorem interconnect_lookup_complete (C : NNet) (hwf : C.wf = true) (tl : PinIdx) (c1 : String) (p1 : Option String) (c2 : String)
+    (p2 : Option String) (l : Nat)
+    (h : ∃ i1 i2 q1 q2 lo li, cellOf C c1 = some i1 ∧ cellOf C c2 = some i2 ∧
+      endPin tl (C.net.node i1).kind p1 = some q1 ∧ endPin tl (C.net.node i2).kind p2 = some q2 ∧
+      (C.net.node i1).outPin q1 = some lo ∧ (C.net.node i2).inPin q2 = some li ∧
+      (C.net.node (C.net.line lo).reader).isFork = true ∧ (C.net.node (C.net.line li).driver).isFork = true ∧
+      (C.net.node (C.net.line li).driver).outs.length = 1 ∧
+      l < C.net.lines.size ∧ (C.net.line l).reader = (C.net.line li).driver ∧ (C.net.line l).rpin = 0 ∧
+      ((C.net.line lo).reader = (C.net.line li).driver ∨
+       ((C.net.line lo).reader ≠ (C.net.line li).driver ∧ (C.net.line l).driver = (C.net.line lo).reader))) :
+    icLook C tl c1 p1 c2 p2 = .line l :=
+  icLook_complete C (WF.of_wf hwf) tl c1 p1 c2 p2 l h
+
+/-- soundness and completeness together (`IcPlace` = the description above, Proofs/SdfCircComplete.lean): the look-up answers
+`l` EXACTLY when `l` is the place of the entry; and the place is unique -/
+theorem interconnect_lookup_iff (C : NNet) (hwf : C.wf = true) (tl : PinIdx) (c1 : String) (p1 : Option String) (c2 : String)
+    (p2 : Option String) (l : Nat) : icLook C tl c1 p1 c2 p2 = .line l ↔ IcPlace C tl c1 p1 c2 p2 l :=
+  icLook_line_iff C (WF.of_wf hwf) tl c1 p1 c2 p2 l
+
+theorem interconnect_place_unique (C : NNet) (hwf : C.wf = true) (tl : PinIdx) (c1 : String) (p1 : Option String) (c2 : String)
+    (p2 : Option String) (l l' : Nat) (h : IcPlace C tl c1 p1 c2 p2 l) (h' : IcPlace C tl c1 p1 c2 p2 l') : l = l' :=
+  IcPlace.unique (WF.of_wf hwf) h h'
+
+/-- `icLookX` = the look-up with the two kinds of warning kept apart (`warnPin`: "No line to annotate pin", `warnNoBranch`:
+"No branchfork to annotate interconnect delay"); forgetting the kind gives `icLook`, for every dump -/
+theorem interconnect_exit_refines (C : NNet) (tl : PinIdx) (c1 : String) (p1 : Option String) (c2 : String) (p2 : Option String) :
+    (icLookX C tl c1 p1 c2 p2).toLook = icLook C tl c1 p1 c2 p2 :=
+  icLookX_toLook C tl c1 p1 c2 p2
+
+/-- **Every exit of the INTERCONNECT look-up** on a well-formed dump with the structure `verilog.parse` builds (`icStructOKB`,
+decidable: every fork has exactly one, connected, input pin; lines at pins of cells come from / go to forks; evaluated by the
+check on every parsed circuit, tag `c14-hyp:icStruct:*`).  With `IcEnds … i1 q1 i2 q2` = "both cell names are in `circuit.cells`
+(nodes `i1`, `i2`) and both pin names are in the library (indices `q1`, `q2`; 0 for a name without `/pin`)", `lo` = the line at
+output pin `q1` of `i1`, `li` = the line at input pin `q2` of `i2`, `f1` = reader of `lo`, `f2` = driver of `li`:
+* **answer `l`** ⇔ `f2` has one reader and (a) `f1 = f2` and `l = lo` (the signal fork of the origin pin feeds the destination
+  pin alone) or (b) `f1 ≠ f2`, `l` is THE input line of `f2` and is driven by `f1` (branch fork of the signal fork);
+* **warn "No branchfork"** ⇔ both pins connected, `f1 = f2`, and `f2` does not have exactly one reader slot (fan-out);
+* **warn "No line to annotate pin"** ⇔ both ends resolve and one of the two pins is open;
+* **raise** ⇔ an end does not resolve (`KeyError` / `AssertionError` of `pin_index`), or both pins are connected, `f1 ≠ f2`, and
+  `f2` is not a one-reader fork whose input line is driven by `f1` (the file names a connection the circuit does not have).
+The four right-hand sides are exhaustive and exclusive because they describe the value of one function. -/
+theorem interconnect_lookup_exits (C : NNet) (hwf : C.wf = true) (hst : icStructOKB C = true) (tl : PinIdx) (c1 : String)
+    (p1 : Option String) (c2 : String) (p2 : Option String) :
+    (∀ l, icLookX C tl c1 p1 c2 p2 = .line l ↔
+      ∃ i1 q1 i2 q2 lo li, IcEnds C tl c1 p1 c2 p2 i1 q1 i2 q2 ∧
+        (C.net.node i1).outPin q1 = some lo ∧ (C.net.node i2).inPin q2 = some li ∧
+        (C.net.node (C.net.line li).driver).outs.length = 1 ∧
+        (((C.net.line lo).reader = (C.net.line li).driver ∧ l = lo) ∨
+         ((C.net.line lo).reader ≠ (C.net.line li).driver ∧ FeedsFork C l (C.net.line li).driver ∧
+            (C.net.line l).driver = (C.net.line lo).reader))) ∧
+    (icLookX C tl c1 p1 c2 p2 = .warnNoBranch ↔
+      ∃ i1 q1 i2 q2 lo li, IcEnds C tl c1 p1 c2 p2 i1 q1 i2 q2 ∧
+        (C.net.node i1).outPin q1 = some lo ∧ (C.net.node i2).inPin q2 = some li ∧
+        (C.net.line lo).reader = (C.net.line li).driver ∧ (C.net.node (C.net.line li).driver).outs.length ≠ 1) ∧
+    (icLookX C tl c1 p1 c2 p2 = .warnPin ↔
+      ∃ i1 q1 i2 q2, IcEnds C tl c1 p1 c2 p2 i1 q1 i2 q2 ∧
+        ((C.net.node i1).outPin q1 = none ∨ (C.net.node i2).inPin q2 = none)) ∧
+    (icLookX C tl c1 p1 c2 p2 = .raise ↔
+      IcUnresolved C tl c1 p1 c2 p2 ∨
+      ∃ i1 q1 i2 q2 lo li, IcEnds C tl c1 p1 c2 p2 i1 q1 i2 q2 ∧
+        (C.net.node i1).outPin q1 = some lo ∧ (C.net.node i2).inPin q2 = some li ∧
+        (C.net.line lo).reader ≠ (C.net.line li).driver ∧
+        ¬ ((C.net.node (C.net.line li).driver).outs.length = 1 ∧
+            ∃ l, FeedsFork C l (C.net.line li).driver ∧ (C.net.line l).driver = (C.net.line lo).reader)) :=
+  ⟨icLookX_line_struct C (WF.of_wf hwf) hst tl c1 p1 c2 p2, icLookX_noBranch_struct C (WF.of_wf hwf) hst tl c1 p1 c2 p2,
+   icLookX_warnPin_iff C tl c1 p1 c2 p2, icLookX_raise_struct C (WF.of_wf hwf) hst tl c1 p1 c2 p2⟩
+
+/-- the raise exit at the level of `icLook` (the three outcomes answer / skip / raise of `Look`): same condition -/
+theorem interconnect_lookup_raise (C : NNet) (hwf : C.wf = true) (hst : icStructOKB C = true) (tl : PinIdx) (c1 : String)
+    (p1 : Option String) (c2 : String) (p2 : Option String) :
+    icLook C tl c1 p1 c2 p2 = .raise ↔
+      IcUnresolved C tl c1 p1 c2 p2 ∨
+      ∃ i1 q1 i2 q2 lo li, IcEnds C tl c1 p1 c2 p2 i1 q1 i2 q2 ∧
+        (C.net.node i1).outPin q1 = some lo ∧ (C.net.node i2).inPin q2 = some li ∧
+        (C.net.line lo).reader ≠ (C.net.line li).driver ∧
+        ¬ ((C.net.node (C.net.line li).driver).outs.length = 1 ∧
+            ∃ l, FeedsFork C l (C.net.line li).driver ∧ (C.net.line l).driver = (C.net.line lo).reader) := by
+  rw [← icLookX_raise_iff_look]
+  exact (interconnect_lookup_exits C hwf hst tl c1 p1 c2 p2).2.2.2
+
+/-- … and the skip of `icLook` is one of the two warnings -/
+theorem interconnect_lookup_skip (C : NNet) (tl : PinIdx) (c1 : String) (p1 : Option String) (c2 : String) (p2 : Option String) :
+    icLook C tl c1 p1 c2 p2 = .skip ↔ icLookX C tl c1 p1 c2 p2 = .warnPin ∨ icLookX C tl c1 p1 c2 p2 = .warnNoBranch :=
+  icLookX_skip_iff_look C tl c1 p1 c2 p2
+
+/-- the exits WITHOUT the structural hypothesis (every dump, in terms of the fork decision `icFork` of the two lines): what
+`icStructOKB` removes from the list are the raises "a neighbour of a cell is not a fork" and "the fork has no first input". -/
+theorem interconnect_lookup_exits_any (C : NNet) (tl : PinIdx) (c1 : String) (p1 : Option String) (c2 : String) (p2 : Option String) :
+    (∀ x, x ≠ IcExit.raise → x ≠ IcExit.warnPin → (icLookX C tl c1 p1 c2 p2 = x ↔
+      ∃ i1 q1 i2 q2 lo li, IcEnds C tl c1 p1 c2 p2 i1 q1 i2 q2 ∧
+        (C.net.node i1).outPin q1 = some lo ∧ (C.net.node i2).inPin q2 = some li ∧ icFork C lo li = x)) ∧
+    (icLookX C tl c1 p1 c2 p2 = .raise ↔
+      IcUnresolved C tl c1 p1 c2 p2 ∨
+      ∃ i1 q1 i2 q2 lo li, IcEnds C tl c1 p1 c2 p2 i1 q1 i2 q2 ∧
+        (C.net.node i1).outPin q1 = some lo ∧ (C.net.node i2).inPin q2 = some li ∧
+        (¬ ((C.net.node (C.net.line lo).reader).isFork = true ∧ (C.net.node (C.net.line li).driver).isFork = true) ∨
+         ((C.net.line lo).reader ≠ (C.net.line li).driver ∧
+            ¬ ∃ l, BranchOK C (C.net.line lo).reader (C.net.line li).driver l) ∨
+         ((C.net.line lo).reader = (C.net.line li).driver ∧ (C.net.node (C.net.line li).driver).outs.length = 1 ∧
+            forkIn (C.net.node (C.net.line li).driver) = none))) := by
+  refine ⟨fun x hx hx' => ?_, ?_⟩
+  · rw [icLookX_eq_iff _ _ _ _ _ _ _ hx]
+    simp only [icPins_ne_warnPin_iff C _ _ _ _ x hx']
+    constructor
+    · rintro ⟨i1, q1, i2, q2, he, lo, li, h⟩; exact ⟨i1, q1, i2, q2, lo, li, he, h⟩
+    · rintro ⟨i1, q1, i2, q2, lo, li, he, h⟩; exact ⟨i1, q1, i2, q2, he, lo, li, h⟩
+  · rw [icLookX_raise_iff]
+    simp only [icPins_ne_warnPin_iff C _ _ _ _ IcExit.raise (by simp), icFork_raise_iff]
+    constructor
+    · rintro (h | ⟨i1, q1, i2, q2, he, lo, li, h⟩)
+      · exact Or.inl h
+      · exact Or.inr ⟨i1, q1, i2, q2, lo, li, he, h⟩
+    · rintro (h | ⟨i1, q1, i2, q2, lo, li, he, h⟩)
+      · exact Or.inl h
+      · exact Or.inr ⟨i1, q1, i2, q2, he, lo, li, h⟩
+
+/-- **none is lost, array level**: an INTERCONNECT entry of the file whose values are not all zero and that HAS a place in the
+circuit (`IcPlace`, for the names as the loop prepares them: split at `/`, backslashes removed) stands in the result of
+`interconnects` on that line (`hpost`: no later entry annotates the same line — the last one wins, by design). -/
+theorem interconnect_not_lost_circuit (C : NNet) (hwf : C.wf = true) (tl : PinIdx) (df : DelayFile) (pre post : List Entry)
+    (e : Entry) (l d : Nat) (ip op : Bool)
+    (hsplit : icEntries df = some (pre ++ e :: post))
+    (hnz : ∃ v ∈ norm e.r ++ norm e.f, v ≠ 0)
+    (hplace : IcPlace C tl (stripBackslash (splitSlash e.a).1) (splitSlash e.a).2
+                (stripBackslash (splitSlash e.b).1) (splitSlash e.b).2 l)
+    (hd : d < 3)
+    (hpost : ∀ e' ∈ post, ∀ w, icWrite (icLineOf C tl) e' = some w → w.line ≠ l) :
+    (interconnects (icLineOf C tl) df).map (fun A => A d l ip op) = some ((norm (if op then e.f else e.r)).getD d 0) :=
+  interconnect_lands_lookup C tl df pre post e l d ip op hsplit hnz
+    ((interconnect_lookup_iff C hwf tl _ _ _ _ l).mpr hplace) hd hpost
+
+/-- … and in the result of the function with its raises (`interconnectsC`), whenever that is an array -/
+theorem interconnect_not_lost_circuitC (C : NNet) (hwf : C.wf = true) (tl : PinIdx) (df : DelayFile) (pre post : List Entry)
+    (e : Entry) (l d : Nat) (ip op : Bool) (A : Arr)
+    (hA : interconnectsC C tl df = some A)
+    (hsplit : icEntries df = some (pre ++ e :: post))
+    (hnz : ∃ v ∈ norm e.r ++ norm e.f, v ≠ 0)
+    (hplace : IcPlace C tl (stripBackslash (splitSlash e.a).1) (splitSlash e.a).2
+                (stripBackslash (splitSlash e.b).1) (splitSlash e.b).2 l)
+    (hd : d < 3)
+    (hpost : ∀ e' ∈ post, ∀ w, icWrite (icLineOf C tl) e' = some w → w.line ≠ l) :
+    A d l ip op = (norm (if op then e.f else e.r)).getD d 0 := by
+  have h := interconnect_not_lost_circuit C hwf tl df pre post e l d ip op hsplit hnz hplace hd hpost
+  rw [interconnectsC_eq hA] at h
+  simpa using h
+
+/-- a place can only be missed by raising or warning: with the place, neither happens -/
+theorem interconnect_place_no_warn (C : NNet) (hwf : C.wf = true) (tl : PinIdx) (c1 : String) (p1 : Option String) (c2 : String)
+    (p2 : Option String) (l : Nat) (h : IcPlace C tl c1 p1 c2 p2 l) :
+    icLookX C tl c1 p1 c2 p2 = .line l :=
+  (icLookX_line_iff C tl c1 p1 c2 p2 l).mpr ((interconnect_lookup_iff C hwf tl c1 p1 c2 p2 l).mpr h)
 
 /-- a circuit `a -> u1 (INV_X1) -> n -> u2 (INV_X1) -> z` with signal forks (no branch forks), as `dump_net` exports it -/
 def exCirc : NNet :=
@@ -608,14 +848,86 @@ example : icLook exCirc exTl "u1" (some "ZN") "u2" (some "I") = .line 2 ∧ icLo
 /-- the hypotheses of `iopath_lands_circuit` / `interconnect_lands_circuit` hold for the auditor's witness file on this circuit;
 the negative INTERCONNECT value lands (repaired skip test) -/
 example : iopaths (pinLineOf exCirc exTl) (parse .merge [⟨["u2"], [[⟨"I", "ZN", [[some 1, some 2, some 3]]⟩]]⟩]) 1 3 true false = 2 :=
-  iopath_lands_circuit exCirc (by decide +kernel) exTl _ [] [] "u2" ⟨"I", "ZN", [1, 2, 3], [1, 2, 3]⟩ 4 0 3 1 true false
+  iopath_lands_lookup exCirc (by decide +kernel) exTl _ [] [] "u2" ⟨"I", "ZN", [1, 2, 3], [1, 2, 3]⟩ 4 0 3 1 true false
     (by decide +kernel) (by decide +kernel) (by decide +kernel) (by decide +kernel) (by decide +kernel) (by decide +kernel)
     (by decide) (by simp)
 example : (interconnects (icLineOf exCirc exTl)
       (parse .merge [⟨[], [[⟨"u1/ZN", "u2/I", [[some 0, some 0, some 0], [some (-1), some 5, some 5]]⟩]]⟩])).map
         (fun A => A 0 2 false true) = some (-1) :=
-  interconnect_lands_circuit exCirc exTl _ [] [] ⟨"u1/ZN", "u2/I", [0, 0, 0], [-1, 5, 5]⟩ 2 0 false true
+  interconnect_lands_lookup exCirc exTl _ [] [] ⟨"u1/ZN", "u2/I", [0, 0, 0], [-1, 5, 5]⟩ 2 0 false true
     (by decide +kernel) ⟨-1, by decide, by decide⟩ (by decide +kernel) (by decide) (by simp)
+/-- the real-result theorems: the hypothesis `iopathsC … = some A` / `interconnectsC … = some A` is satisfiable (a file whose
+look-ups all succeed or warn) … -/
+example : (iopathsC exCirc exTl (parse .merge [⟨["u2"], [[⟨"I", "ZN", [[some 1, some 2, some 3]]⟩]]⟩, ⟨["ghost"], [[⟨"I", "ZN", [[some 1, some 2, some 3]]⟩]]⟩])).isSome = true
+    ∧ (interconnectsC exCirc exTl (parse .merge [⟨[], [[⟨"u1/ZN", "u2/I", [[some 0, some 0, some 0], [some (-1), some 5, some 5]]⟩]]⟩])).isSome = true := by
+  decide +kernel
+/-- … and fails on the second audit's witness: a block with an entry for pin `Q`, which `INV_X1` does not have — the real
+`iopaths()` raises `AssertionError`, there is no array, `iopath_lands_circuit` has no instance; an INTERCONNECT naming a
+connection the circuit does not have (`exFan`: `u2/ZN -> u3/I`) makes `interconnects()` raise -/
+example : iopathsC exCirc exTl (parse .merge [⟨["u2"], [[⟨"I", "ZN", [[some 1, some 2, some 3]]⟩, ⟨"Q", "ZN", [[some 4, some 5, some 6]]⟩]]⟩]) = none := by
+  decide +kernel
+example : pinLook exCirc exTl "u2" "Q" = .raise := by decide +kernel
+example (A : Arr) (hA : iopathsC exCirc exTl (parse .merge [⟨["u2"], [[⟨"I", "ZN", [[some 1, some 2, some 3]]⟩]]⟩]) = some A) :
+    A 1 3 true false = 2 :=
+  iopath_lands_circuit exCirc (by decide +kernel) exTl _ A hA [] [] "u2" ⟨"I", "ZN", [1, 2, 3], [1, 2, 3]⟩ 4 0 3 1 true false
+    (by decide +kernel) (by decide +kernel) (by decide +kernel) (by decide +kernel) (by decide +kernel) (by decide +kernel)
+    (by decide) (by simp)
+example (A : Arr) (hA : interconnectsC exCirc exTl
+      (parse .merge [⟨[], [[⟨"u1/ZN", "u2/I", [[some 0, some 0, some 0], [some (-1), some 5, some 5]]⟩]]⟩]) = some A) :
+    A 0 2 false true = -1 :=
+  interconnect_lands_circuit exCirc exTl _ A hA [] [] ⟨"u1/ZN", "u2/I", [0, 0, 0], [-1, 5, 5]⟩ 2 0 false true
+    (by decide +kernel) ⟨-1, by decide, by decide⟩ (by decide +kernel) (by decide) (by simp)
+/-- fan-out with branch forks (`verilog.parse(branchforks=True)`): `a -> u1 -> n -> {u2 -> z1, u3 -> z2}`; node 3 is the
+signal fork of `n`, nodes 4 and 5 its branch forks -/
+def exFan : NNet :=
+  { net := { nodes := #[⟨"input", [], [some 0]⟩, ⟨"__fork__", [some 0], [some 1]⟩, ⟨"INV_X1", [some 1], [some 2]⟩,
+                        ⟨"__fork__", [some 2], [some 3, some 4]⟩, ⟨"__fork__", [some 3], [some 5]⟩, ⟨"__fork__", [some 4], [some 6]⟩,
+                        ⟨"INV_X1", [some 5], [some 7]⟩, ⟨"INV_X1", [some 6], [some 8]⟩,
+                        ⟨"__fork__", [some 7], [some 9]⟩, ⟨"__fork__", [some 8], [some 10]⟩,
+                        ⟨"output", [some 9], []⟩, ⟨"output", [some 10], []⟩],
+             lines := #[⟨0, 0, 1, 0⟩, ⟨1, 0, 2, 0⟩, ⟨2, 0, 3, 0⟩, ⟨3, 0, 4, 0⟩, ⟨3, 1, 5, 0⟩, ⟨4, 0, 6, 0⟩, ⟨5, 0, 7, 0⟩,
+                        ⟨6, 0, 8, 0⟩, ⟨7, 0, 9, 0⟩, ⟨8, 0, 10, 0⟩, ⟨9, 0, 11, 0⟩],
+             io := [0, 10, 11] },
+    names := #["a", "a", "u1", "n", "n~0", "n~1", "u2", "u3", "z1", "z2", "z1", "z2"] }
+/-- the same netlist without branch forks (`branchforks=False`): the signal fork of `n` has two readers -/
+def exFanNB : NNet :=
+  { net := { nodes := #[⟨"input", [], [some 0]⟩, ⟨"__fork__", [some 0], [some 1]⟩, ⟨"INV_X1", [some 1], [some 2]⟩,
+                        ⟨"__fork__", [some 2], [some 3, some 4]⟩,
+                        ⟨"INV_X1", [some 3], [some 5]⟩, ⟨"INV_X1", [some 4], [some 6]⟩,
+                        ⟨"__fork__", [some 5], [some 7]⟩, ⟨"__fork__", [some 6], [some 8]⟩,
+                        ⟨"output", [some 7], []⟩, ⟨"output", [some 8], []⟩],
+             lines := #[⟨0, 0, 1, 0⟩, ⟨1, 0, 2, 0⟩, ⟨2, 0, 3, 0⟩, ⟨3, 0, 4, 0⟩, ⟨3, 1, 5, 0⟩, ⟨4, 0, 6, 0⟩, ⟨5, 0, 7, 0⟩,
+                        ⟨6, 0, 8, 0⟩, ⟨7, 0, 9, 0⟩],
+             io := [0, 8, 9] },
+    names := #["a", "a", "u1", "n", "u2", "u3", "z1", "z2", "z1", "z2"] }
+
+/-- the hypotheses of `interconnect_lookup_exits` hold for all three example circuits -/
+example : exCirc.wf = true ∧ icStructOKB exCirc = true ∧ exFan.wf = true ∧ icStructOKB exFan = true
+    ∧ exFanNB.wf = true ∧ icStructOKB exFanNB = true := by decide +kernel
+/-- all four exits occur: branch-fork answers (lines 3 and 4), sole-line answer (line 0), "No branchfork" on the netlist without
+branch forks, open pin (the port `a` as destination: an `input` node has no input pin), raise for a connection that does not exist, for an
+unknown cell and for an unknown pin -/
+example : icLookX exFan exTl "u1" (some "ZN") "u2" (some "I") = .line 3 ∧ icLookX exFan exTl "u1" (some "ZN") "u3" (some "I") = .line 4
+    ∧ icLookX exFan exTl "a" none "u1" (some "I") = .line 0
+    ∧ icLookX exFanNB exTl "u1" (some "ZN") "u2" (some "I") = .warnNoBranch
+    ∧ icLookX exFan exTl "u1" (some "ZN") "a" none = .warnPin
+    ∧ icLookX exFan exTl "u2" (some "ZN") "u3" (some "I") = .raise
+    ∧ icLookX exFan exTl "u9" none "u3" (some "I") = .raise
+    ∧ icLookX exFan exTl "u1" (some "Q") "u3" (some "I") = .raise := by decide +kernel
+example : interconnectsC exFan exTl (parse .merge [⟨[], [[⟨"u2/ZN", "u3/I", [[some 1, some 2, some 3]]⟩]]⟩]) = none
+    ∧ interconnectsC exFan exTl (parse .merge [⟨["u1"], []⟩]) = none := by decide +kernel
+/-- the place of `u1/ZN -> u3/I` in `exFan` is line 4 (hypothesis of `interconnect_lookup_complete`, stated directly) -/
+example : IcPlace exFan exTl "u1" (some "ZN") "u3" (some "I") 4 :=
+  ⟨2, 7, 0, 0, 2, 6, by decide +kernel, by decide +kernel, by decide +kernel, by decide +kernel, by decide +kernel,
+    by decide +kernel, by decide +kernel, by decide +kernel, by decide +kernel, by decide +kernel, by decide +kernel,
+    by decide +kernel, Or.inr ⟨by decide +kernel, by decide +kernel⟩⟩
+/-- `interconnect_not_lost_circuit` on the fan-out circuit: the negative value of the entry for the second branch lands on line 4 -/
+example : (interconnects (icLineOf exFan exTl)
+      (parse .merge [⟨[], [[⟨"u1/ZN", "u3/I", [[some 0, some 0, some 0], [some (-1), some 5, some 5]]⟩]]⟩])).map
+        (fun A => A 0 4 false true) = some (-1) :=
+  interconnect_not_lost_circuit exFan (by decide +kernel) exTl _ [] [] ⟨"u1/ZN", "u3/I", [0, 0, 0], [-1, 5, 5]⟩ 4 0 false true
+    (by decide +kernel) ⟨-1, by decide, by decide⟩
+    ((interconnect_lookup_iff exFan (by decide +kernel) exTl _ _ _ _ 4).mp (by decide +kernel)) (by decide) (by simp)
 end circuit
 
 /-! ## text level: the grammar of `sdf.py` (Model/SdfText.lean) -/
